@@ -1,7 +1,8 @@
 """The /verif backend family: TextQueryBackend subclasses built from a configuration record K.
 
-Only class DATA is set here - templates, tokens, flags. No conversion method is overridden,
-so everything under test stays in sigma/conversion/base.py. The surface syntax is chosen so
+Only class DATA is set here - templates, tokens, flags. No conversion method is overridden
+(with one exception, option `defer`, see below), so everything under test stays in
+sigma/conversion/base.py. The surface syntax is chosen so
 that the emitted text can be read back unambiguously by spec/QueryLang.tla:
 
   field        `name`            (always quoted with backticks, backslash escapes ` and \\)
@@ -11,6 +12,7 @@ that the emitted text can be read back unambiguously by spec/QueryLang.tla:
                `f`:fref:`g` (frefsw frefew frefct)   `f`:in:["a", "b"]   `f`:allof:[...]
                KW:eq:"value"   KW:re:/regex/
   boolean      AND OR NOT ( )    separated by one or two spaces
+  deferred     MAIN | PART | PART   (MAIN may be "*"; PART = atom or "DNOT " atom; all of them must hold)
   strings      "..." with backslash escaping of " and \\ ; wildcards * and ?
 """
 from __future__ import annotations
@@ -142,6 +144,23 @@ def backend_class(K: dict) -> type:
             case_sensitive_not_endswith_expression="{field}:ncew:{value}" if cs == "full" else None,
             case_sensitive_not_contains_expression="{field}:ncct:{value}" if cs == "full" else None,
         )
+    if K.get("defer", False):
+        # Regular expression matches on fields are DEFERRED query parts, as backends do whose target language
+        # filters by regular expression in a later stage ("query | regex ..."). This is the one place where the
+        # family overrides a conversion method - in the way such backends (and the repository's own deferred test
+        # backend) do: the parent's conversion wrapped into a DeferredTextQueryExpression. A deferred part reads
+        # "`f`:re:/x/" or, negated, "DNOT `f`:re:/x/"; the parts follow the main query after " | ".
+        from sigma.conversion.deferred import DeferredTextQueryExpression
+
+        class DeferredRe(DeferredTextQueryExpression):
+            template = "{op}{value}"
+            operators = {True: "DNOT ", False: ""}
+            default_field = None
+
+        def convert_condition_field_eq_val_re(self, cond, state):
+            return DeferredRe(state, cond.field, TextQueryBackend.convert_condition_field_eq_val_re(self, cond, state))
+
+        a["convert_condition_field_eq_val_re"] = convert_condition_field_eq_val_re
     # correlation templates (delimiter-structured, read back by spec/CorrLang in Judge_C10)
     a.update(K.get("_extra", {}))
     _N[0] += 1
